@@ -18,7 +18,14 @@ import (
 	"strings"
 	"unicode/utf8"
 
+	"io/fs"
+	"path/filepath"
+	"sort"
+
+	"github.com/pgavlin/dawn"
+	starlark_os "github.com/pgavlin/dawn/lib/os"
 	"github.com/pgavlin/dawn/util"
+	"go.starlark.net/starlark"
 )
 
 type rng struct{ s uint64 }
@@ -295,6 +302,248 @@ func oneSet(gs []string, paths []string, corr bool) {
 	}
 }
 
+// ---- use of glob sets: the glob() builtin, os.glob() and the ignore list, on generated trees ----------------
+
+func slist(ss []string) string {
+	qs := make([]string, len(ss))
+	for i, s := range ss {
+		qs[i] = fmt.Sprintf("%q", s)
+	}
+	return "[" + strings.Join(qs, ", ") + "]"
+}
+
+func hxs(ss []string) string {
+	if len(ss) == 0 {
+		return "."
+	}
+	h := make([]string, len(ss))
+	for i, s := range ss {
+		h[i] = hx(s)
+	}
+	return strings.Join(h, ";")
+}
+
+func refSet(gs []string, p string) bool {
+	for _, g := range gs {
+		ts, e := lexRef(g)
+		if e == "" && refMatch(ts, []rune(p)) {
+			return true
+		}
+	}
+	return false
+}
+
+func genName(r *rng) string {
+	names := []string{"a", "b", "ab", "a.go", "b.go", "a.md", "x", "src", "gen", "vendor", "lib", "a[1]", "é", "a b", ".hid", "g.o"}
+	return names[r.below(len(names))]
+}
+
+func genSetPattern(r *rng) string {
+	pats := []string{"*", "**", "*.go", "**/*.go", "src/**", "src/*", "a*", "?", "??", "*/*", "vendor", "src/gen*", "**/a", "a.go", "\\*", "*.md", "g.?", "a[1]", ".*", "**/gen/**", "src", "x/**", "lib/?*", "é"}
+	if r.below(4) == 0 {
+		return genName(r) + "/" + pats[r.below(len(pats))]
+	}
+	return pats[r.below(len(pats))]
+}
+
+func selectTree(r *rng, tmp string, idx int) {
+	root := filepath.Join(tmp, fmt.Sprintf("t%d", idx))
+	os.MkdirAll(root, 0o755)
+	defer os.RemoveAll(root)
+	// tree
+	nfiles := 3 + r.below(12)
+	for i := 0; i < nfiles; i++ {
+		depth := r.below(4)
+		parts := []string{}
+		for d := 0; d < depth; d++ {
+			parts = append(parts, genName(r))
+		}
+		parts = append(parts, genName(r))
+		p := filepath.Join(append([]string{root}, parts...)...)
+		if st, err := os.Stat(p); err == nil && st.IsDir() {
+			continue
+		}
+		if err := os.MkdirAll(filepath.Dir(p), 0o755); err != nil {
+			continue // a file is in the way
+		}
+		os.WriteFile(p, []byte("x"), 0o644)
+	}
+	type q struct{ inc, exc []string }
+	var qs []q
+	for i := 0; i < 6; i++ {
+		var c q
+		for j, n := 0, r.below(3)+boolInt(r.below(5) != 0); j < n; j++ {
+			c.inc = append(c.inc, genSetPattern(r))
+		}
+		for j, n := 0, r.below(3); j < n; j++ {
+			c.exc = append(c.exc, genSetPattern(r))
+		}
+		qs = append(qs, c)
+	}
+	var src strings.Builder
+	src.WriteString("out = []\n")
+	for _, c := range qs {
+		fmt.Fprintf(&src, "out.append(\"\\x1f\".join(glob(%s, exclude=%s)))\n", slist(c.inc), slist(c.exc))
+		fmt.Fprintf(&src, "out.append(\"\\x1f\".join(os.glob(%s, exclude=%s)))\n", slist(c.inc), slist(c.exc))
+	}
+	src.WriteString("fail(\"GLOB=\" + \"\\x1e\".join(out) + \"=END\")\n")
+	os.WriteFile(filepath.Join(root, ".dawnconfig"), nil, 0o644)
+	os.WriteFile(filepath.Join(root, "BUILD.dawn"), []byte(src.String()), 0o644)
+	// what is on disk
+	var files, entries []string
+	filepath.WalkDir(root, func(path string, d fs.DirEntry, err error) error {
+		if err != nil || path == root {
+			return nil
+		}
+		rel := filepath.ToSlash(path[len(root)+1:])
+		if rel == ".dawn" {
+			return fs.SkipDir
+		}
+		entries = append(entries, rel)
+		if !d.IsDir() {
+			files = append(files, rel)
+		}
+		return nil
+	})
+	_, err := dawn.Load(root, &dawn.LoadOptions{Builtins: starlark.StringDict{"os": starlark_os.Module}})
+	if err == nil {
+		violation("glob-builtin-harness", nil, "", "Load did not fail as arranged")
+		return
+	}
+	msg := err.Error()
+	a, b := strings.Index(msg, "GLOB="), strings.LastIndex(msg, "=END")
+	if a < 0 || b < a {
+		stats["select_load_errors"]++
+		if stats["select_load_errors"] < 3 {
+			fmt.Fprintf(os.Stderr, "select: unexpected load error: %s\n", msg)
+		}
+		return
+	}
+	res := strings.Split(msg[a+5:b], "\x1e")
+	if len(res) != 2*len(qs) {
+		violation("glob-builtin-harness", nil, "", "unexpected result count")
+		return
+	}
+	for i, c := range qs {
+		for k, universe := range [][]string{files, entries} {
+			which := []string{"glob", "os.glob"}[k]
+			var got []string
+			if res[2*i+k] != "" {
+				got = strings.Split(res[2*i+k], "\x1f")
+			}
+			// dawn's own work directory may appear under os.glob's walk; it is not part of the generated tree
+			var g2 []string
+			for _, p := range got {
+				if p != ".dawn" && !strings.HasPrefix(p, ".dawn/") {
+					g2 = append(g2, p)
+				}
+			}
+			got = g2
+			sort.Strings(got)
+			var want []string
+			for _, p := range universe {
+				if refSet(c.inc, p) && !refSet(c.exc, p) {
+					want = append(want, p)
+				}
+			}
+			sort.Strings(want)
+			stats["select_queries"]++
+			stats["select_selected"] += len(got)
+			u := append([]string(nil), universe...)
+			sort.Strings(u)
+			emit("glob.select", "select "+pats(c.inc)+" "+pats(c.exc)+" "+hxs(u), "ok "+hxs(got))
+			if strings.Join(got, "\x00") != strings.Join(want, "\x00") {
+				nviol++
+				bb, _ := json.Marshal(map[string]any{"kind": which + "-selection-differs", "detail": fmt.Sprintf("got %q want %q", got, want),
+					"patterns": c.inc, "path": "", "input": map[string]any{"builtin": which, "include": c.inc, "exclude": c.exc, "tree": universe}})
+				if nviol <= 20 {
+					fmt.Fprintf(out, "V\t%s\n", bb)
+				}
+			}
+		}
+	}
+}
+
+func boolInt(b bool) int {
+	if b {
+		return 1
+	}
+	return 0
+}
+
+// ignore lists: dawn.toml `ignore = [...]`; a package is loaded iff neither its directory nor an ancestor matches
+func ignoreTree(r *rng, tmp string, idx int) {
+	root := filepath.Join(tmp, fmt.Sprintf("i%d", idx))
+	os.MkdirAll(root, 0o755)
+	defer os.RemoveAll(root)
+	dirs := map[string]bool{"": true}
+	for i, n := 0, 3+r.below(8); i < n; i++ {
+		depth := 1 + r.below(3)
+		parts := []string{}
+		for d := 0; d < depth; d++ {
+			parts = append(parts, []string{"a", "b", "src", "gen", "vendor", "x.d", "lib"}[r.below(7)])
+			dirs[strings.Join(parts, "/")] = true
+		}
+	}
+	var ign []string
+	for j, n := 0, 1+r.below(3); j < n; j++ {
+		ign = append(ign, []string{"vendor", "*", "**/gen", "src/*", "a", "?", "lib/**", "*/b", "x.d", "**", "a/b", "src"}[r.below(12)])
+	}
+	var all []string
+	for d := range dirs {
+		all = append(all, d)
+		os.MkdirAll(filepath.Join(root, filepath.FromSlash(d)), 0o755)
+		os.WriteFile(filepath.Join(root, filepath.FromSlash(d), "BUILD.dawn"), []byte("@target()\ndef t():\n    pass\n"), 0o644)
+	}
+	sort.Strings(all)
+	os.WriteFile(filepath.Join(root, "dawn.toml"), []byte("name = \"p\"\nignore = "+slist(ign)+"\n"), 0o644)
+	proj, err := dawn.Load(root, &dawn.LoadOptions{})
+	if err != nil {
+		stats["ignore_load_errors"]++
+		if stats["ignore_load_errors"] < 3 {
+			fmt.Fprintf(os.Stderr, "ignore: load error: %v\n", err)
+		}
+		return
+	}
+	loaded := map[string]bool{}
+	for _, t := range proj.Targets() {
+		l := t.Label()
+		if l.Kind == "" && l.Name == "t" {
+			loaded[strings.TrimPrefix(l.Package, "//")] = true
+		}
+	}
+	var got, want []string
+	for _, d := range all {
+		if loaded[d] {
+			got = append(got, d)
+		}
+		ok := true
+		parts := strings.Split(d, "/")
+		if d == "" {
+			parts = nil
+		}
+		for k := 0; k <= len(parts); k++ {
+			if refSet(ign, strings.Join(parts[:k], "/")) {
+				ok = false
+			}
+		}
+		if ok {
+			want = append(want, d)
+		}
+	}
+	stats["ignore_queries"]++
+	stats["ignore_loaded"] += len(got)
+	emit("glob.ignore", "loaded "+pats(ign)+" "+hxs(all), "ok "+hxs(got))
+	if strings.Join(got, "\x00") != strings.Join(want, "\x00") {
+		nviol++
+		bb, _ := json.Marshal(map[string]any{"kind": "ignore-list-selection-differs", "detail": fmt.Sprintf("loaded %q want %q", got, want),
+			"patterns": ign, "path": "", "input": map[string]any{"ignore": ign, "dirs": all}})
+		if nviol <= 20 {
+			fmt.Fprintf(out, "V\t%s\n", bb)
+		}
+	}
+}
+
 func enumerate(alpha []string, maxLen int, f func(string)) {
 	var rec func(prefix string, n int)
 	rec = func(prefix string, n int) {
@@ -395,6 +644,18 @@ func main() {
 		oneSet(gs, ps, true)
 	}
 	stats["random_sets"] = n
+
+	// 2b. the users of glob sets on generated trees
+	tmp, _ := os.MkdirTemp("", "verif-glob")
+	defer os.RemoveAll(tmp)
+	nt := 40
+	if *tier == "thorough" {
+		nt = 600
+	}
+	for i := 0; i < nt; i++ {
+		selectTree(r, tmp, i)
+		ignoreTree(r, tmp, i)
+	}
 
 	// 3. invalid UTF-8 and NUL: outside the model, must not crash
 	for _, g := range []string{"\xff", "a\xc3", "\x00*", "\\\xff", "*\xe4\xb8"} {
